@@ -44,14 +44,17 @@ func HC02_maporder() {
 	rt.Assert("C02.same-response-under-any-map-order", rt.DeepEqual(out1.Choice, out2.Choice))
 }
 
-//verif:bounds C02 HC02_maporder_values: every method, no bias, every criterion value a free real (near-ties inside the methods' own tolerances - 1e-5 in Choquet, 1e-6 in the majority comparison, 1e-8 rounding ties in the ranking - are paths), method parameters fixed numbers, A=3, K=2 (A=2, K=3 for owa and Choquet; A=2 for ELECTRE III): decided under insertion order and under another map order (reverse / sorted / reverse sorted), the two responses must be equal
+//verif:bounds C02 HC02_maporder_values: every method, no bias, every criterion value a free real (near-ties inside the methods' own tolerances - 1e-5 in Choquet, 1e-6 in the majority comparison, 1e-8 rounding ties in the ranking - are paths), method parameters fixed numbers, A=3, K=2 (A=2, K=3 for Choquet; A=2 for owa and ELECTRE III): decided under insertion order and under another map order (reverse / sorted / reverse sorted), the two responses must be equal
 //verif:harness HC02_maporder_values mode=REAL reach=answered budget_quick=10m
 func HC02_maporder_values() {
 	method := rt.OneOf("method", Methods...)
 	order := rt.IntRange("order", 1, 3)
 	c := StdChoice{Method: method, CC: "none", AllConsidered: true, Values: 0}
-	if method == "owa" || method == "choquetIntegral" {
+	if method == "choquetIntegral" {
 		c.K, c.A = 3, 2
+	}
+	if method == "owa" {
+		c.A = 2 // K=3 leaves equalities between 1e-8-rounded sums taken in different orders undecided (solver hangs)
 	}
 	if method == "electreIII" {
 		c.A = 2
